@@ -283,6 +283,10 @@ def run_scenario(scn, workdir, scheme='structural', name_tables=False, plan=None
     conf = materialise(scn, d, scheme, name_tables)
     if damage == 'missing_csv_dir':
         conf['csv_result_path'] = str(d / 'out' / 'run_07' / 'tables' / 'res.csv')
+    if damage == 'no_tmp_dir':
+        # no scratch directory configured: the result buffer is created in extended_result_dir
+        conf['tmp_dir'] = None
+        conf['extended_result_dir'] = str(d / 'out')
     if damage == 'missing_query':
         os.unlink(conf['query_path'])
     elif damage == 'corrupt_query':
